@@ -747,12 +747,13 @@ theorem specDefault_eq (a : Args) : specDefault a = ctorDefault a := by
   split <;> simp_all
 
 theorem declaredCfg_eq (a : Args) (n : Nat) : declaredCfg a n = { baseCfg a with length := n } := by
-  unfold declaredCfg baseCfg declaredAllowNone declaredBounds effBounds
+  unfold declaredCfg baseCfg declaredAllowNone declaredBounds effBounds declaredItemType effItemType
   rw [specDefault_eq]
   simp only [Cfg.mk.injEq, true_and, and_true]
-  constructor
+  refine ⟨?_, ?_, ?_⟩
   · cases a.ptype <;> simp [effAllowNone] <;> cases (ctorDefault a).isNone <;> simp
   · cases a.bounds <;> cases a.ptype <;> simp
+  · rcases a.itemType with _ | (_ | ks) <;> rcases a.classAlias with _ | cs <;> simp <;> cases a.ptype <;> rfl
 
 theorem filter_wf (c : Cfg) (h : WF c) : Option.filter (fun c => decide (WF c)) (some c) = some c := by
   simp [Option.filter, h]
